@@ -324,6 +324,10 @@ struct EventCollector : RecursiveASTVisitor<EventCollector> {
   }
   bool VisitCallExpr(CallExpr *CE) {
     if (!seen.insert(CE).second) return true;
+    { // a call spelled inside typeof()/sizeof type operand is not evaluated: no event
+      auto ps0 = X.C.getParents(*CE);
+      if (ps0.empty() || (!ps0[0].get<Stmt>() && !ps0[0].get<Decl>())) return true;
+    }
     json::Object o; o["k"] = "call"; o["line"] = X.line(CE->getBeginLoc()); o["macros"] = X.macros(CE->getBeginLoc()); o["text"] = X.text(CE);
     auto it = S.callIds.find(CE);
     o["id"] = it != S.callIds.end() ? it->second : -1;
@@ -367,11 +371,11 @@ struct EventCollector : RecursiveASTVisitor<EventCollector> {
     }
     // how is the result used?
     std::string use = "unknown"; json::Object useinfo;
-    const Stmt *cur = CE; int depth = 0;
+    const Stmt *cur = CE; int depth = 0; bool orphan = false;
     while (depth++ < 8) {
-      auto ps = X.C.getParents(*cur); if (ps.empty()) break;
+      auto ps = X.C.getParents(*cur); if (ps.empty()) { orphan = true; break; }
       const Stmt *P = ps[0].get<Stmt>();
-      if (!P) { if (auto *VD = ps[0].get<VarDecl>()) { use = "init"; useinfo["var"] = X.declId(VD); } break; }
+      if (!P) { if (auto *VD = ps[0].get<VarDecl>()) { use = "init"; useinfo["var"] = X.declId(VD); } else if (!ps[0].get<Decl>()) orphan = true; break; }
       if (isa<ParenExpr>(P) || isa<ImplicitCastExpr>(P) || isa<ConstantExpr>(P)) { cur = P; continue; }
       if (auto *CS = dyn_cast<CStyleCastExpr>(P)) { if (CS->getType()->isVoidType()) { use = "voidcast"; break; } cur = P; continue; }
       if (isa<CompoundStmt>(P)) { use = "discarded"; break; }
